@@ -25,18 +25,28 @@ def corpus():
           [2, [[[b"A"], [b"B"]], [[b"C"]]]]]],
         [[2, 1, [0, rc.NEVER, 0, 3]], [1, 0, 1, 1], [0], 1,
          [[0, [b"aa"]], [0, [b"bb"]], [0, [b"cc"]], [0, [b"dd"]], [0, [b"ee"]]]],
+        [[3, 5, 0, 1700000040], [1, 0, 2, 0], [1, b"ab"], 1,
+         [[0, [b"1"]], [3, 1700000045], [0, [b"2"]], [0, [b"3"]], [3, 1700000049], [0, [b"4"]],
+          [3, 1700000050], [0, [b"5"]], [1, 1], [3, 1700000054], [0, [b"6"]], [3, 1700000055],
+          [2, [[[b"A"]], [[b"B"]], [[b"C"]]]]]],
+        [[2, 0, [0, 0, rc.NEVER, 0, 0, 0]], [1, 7, 3, 1], [1, b"old"], 1,
+         [[0, [b"r1"]], [0, [b"r", b"2"]], [0, [b"r3"]], [0, [b"r4"]], [0, [b"r5"]], [0, [b"r6"]]]],
     ]
 
 
 def gen_trigger(rng, big):
-    k = rng.below(10)
+    k = rng.below(11)
+    if k == 10:
+        k = 9 if rng.chance(1, 2) else 0
     if k < 4:
         if big:
             return [0, rng.choice([1023, 1024, 1025, 2048])]
         return [0, rng.choice([0, 1, 3, 5, 8, 13, 21, 40])]
     if k < 6:
         return [1, rng.choice([0, 1, 2, 4, 6, 1024 if big else 3])]
-    pre = 1 if k < 8 else 0
+    if k == 9:
+        return [3, rng.choice([1, 2, 5, 7, 30]), rng.below(2), 1700000040 + rng.below(180)]
+    pre = 1 if k < 7 else 0
     script = []
     for _ in range(rng.range(0, 40)):
         script.append(rng.choice([0, 0, rc.NEVER, rc.NEVER, rc.NEVER, rng.range(1, 12), 1024 if big else 5]))
@@ -62,7 +72,12 @@ def cases(rng, tier):
         ops = []
         nops = rng.range(1, 7 if big else 30)
         rid = 0
+        clock = trig[3] if trig[0] == 3 else 0
         for _ in range(nops):
+            if trig[0] == 3 and rng.chance(1, 2):
+                n_ = trig[1]
+                clock = max(0, clock + rng.choice([0, 1, 1, n_ - 1, n_, n_, n_ + 1, 2 * n_, 61, -1, -n_]))
+                ops.append([3, clock])
             k = rng.below(20)
             if k == 0:
                 ops.append([1, 0 if (trunc_ok and rng.chance(1, 2)) else 1])
@@ -89,5 +104,6 @@ def cases(rng, tier):
 def nontrivial(c):
     trig, roller, pre, a0, ops = c
     nrec = sum(1 if o[0] == 0 else sum(len(t) for t in o[1]) if o[0] == 2 else 0 for o in ops)
-    can_fire = trig[0] in (0, 1) or any(t < rc.NEVER for t in trig[2])
+    can_fire = trig[0] in (0, 1) or (trig[0] == 3 and any(o[0] == 3 for o in ops)) or \
+        (trig[0] == 2 and any(t < rc.NEVER for t in trig[2]))
     return nrec >= 2 and can_fire
